@@ -78,7 +78,8 @@ class MetaRunner(object):
     def stop(self):
         """Stop all runners"""
         self._logger.debug("stop all runners")
-        for runner in self._runners.values():
+        # runners are removed concurrently when they shut down due to a failure
+        for runner in list(self._runners.values()):
             runner.stop()
 
     async def _manage_runners(self):
